@@ -533,6 +533,11 @@ class RealCacheScenario:
         def fn():
             out = []
             for name in program:
+                if name in ('<repr>', '<str>'):
+                    # walks over every name of the cache while other threads add names to it
+                    text = repr(self.cache) if name == '<repr>' else str(self.cache)
+                    out.append(bool(text))
+                    continue
                 v = np.asarray(self.cache[name], dtype=float)
                 out.append(np.round(v, 9))
             return canon(out)
@@ -727,7 +732,8 @@ def traced_codes():
     # SensorCache: the public entry points; the long static helpers (_extract, _get_props) run under the
     # lock and are yield points in the thorough tier only
     # (_get_props iterates over the shared props dict: a yield point in every tier)
-    for nm in ('get', '__getitem__', '__setitem__', '__delitem__', '__contains__', 'get_with_fallback', '_get_props'):
+    for nm in ('get', '__getitem__', '__setitem__', '__delitem__', '__contains__', 'get_with_fallback', '_get_props',
+               '__repr__', '__str__', '__iter__', '__len__'):
         f = getattr(SensorCache, nm, None)
         if f is not None and hasattr(f, '__code__'):
             codes.append(f.__code__)
@@ -920,7 +926,9 @@ def variants(ctx):
     g = 'Antennas/m000/'
     for progs in ([[g + 'target_x_ARC_azel'], [g + 'target_y_ARC_azel', g + 'az']],
                   [[g + 'ra', g + 'parangle'], [g + 'dec', g + 'target_y_SIN_radec']],
-                  [[g + 'lst', g + 'target_x_SSN_radec'], [g + 'target_y_SSN_radec', 'Timestamps/mjd', g + 'lst']]):
+                  [[g + 'lst', g + 'target_x_SSN_radec'], [g + 'target_y_SSN_radec', 'Timestamps/mjd', g + 'lst']],
+                  [['<repr>', g + 'lst'], ['Timestamps/mjd', g + 'parangle']],
+                  [['<str>'], [g + 'ra', '<repr>']]):
         # every single preemption point (bound 1 is exhaustive here), then seeded plans with two
         out.append(('dvcache', dict(programs=progs), 1, q(260, 3000)))
     # _Pool: borrow / return, bodies that raise
@@ -1002,6 +1010,62 @@ def _split(r, d):
         out.append(c)
         d -= c
     return out
+
+
+def construction_state(ctx):
+    """The lazily built array is derived from the state the indexer was constructed from: the first-stage index is
+    given as a tuple of mask / index arrays (what DataSet._set_keep hands over), the caller then changes those arrays
+    in place (what a later select() does) and only afterwards several threads do their first access."""
+    import threading
+    from katdal.lazy_indexer import DaskLazyIndexer
+    bad = []
+    rng = ctx.rng
+    for k in range(6):
+        T, F = rng.randint(4, 8), rng.randint(3, 6)
+        src = np.arange(T * F, dtype=np.int64).reshape(T, F)
+        x = da.from_array(src, chunks=(2, 2))
+        mt = np.array([rng.random() < 0.5 for _ in range(T)])
+        mf = np.array([rng.random() < 0.6 for _ in range(F)])
+        if not mt.any():
+            mt[0] = True
+        if not mf.any():
+            mf[0] = True
+        keep = (mt, mf) if k % 2 == 0 else (mt, np.flatnonzero(mf))
+        want = src[np.ix_(mt.copy(), mf.copy())]
+        ind = DaskLazyIndexer(x, keep, [_x3p1] if k % 3 == 0 else [])
+        if k % 3 == 0:
+            want = _x3p1(want)
+        # the owner re-uses its masks for the next selection
+        mt[:] = ~mt
+        mf[:] = True
+        if k % 2:
+            keep[1][...] = 0
+        outs, errs = [None, None], [None, None]
+
+        def work(i):
+            try:
+                with dask.config.set(scheduler='synchronous'):
+                    outs[i] = np.asarray(ind[:]) if i else (tuple(ind.shape), np.asarray(ind[()]))[1]
+            except Exception as e:   # noqa: BLE001
+                errs[i] = e
+        ths = [threading.Thread(target=work, args=(i,)) for i in range(2)]
+        for t in ths:
+            t.start()
+        for t in ths:
+            t.join(20)
+        what = None
+        for i in range(2):
+            if errs[i] is not None:
+                what = f'first access after the masks were re-used raised {type(errs[i]).__name__}: {str(errs[i])[:80]}'
+            elif outs[i] is None or outs[i].shape != want.shape or not np.array_equal(outs[i], want):
+                what = ('the first-stage masks were changed in place between construction and first access: the threads '
+                        f'obtain an array of shape {None if outs[i] is None else outs[i].shape} built from the changed masks, '
+                        f'the selection in force at construction has shape {want.shape}')
+        ctx.tag('construction-state')
+        ctx.count(('construction-state', k, T, F), True, sample={'object': 'lazy-indexer-construction-state'})
+        if what:
+            bad.append((dict(object='session-privacy', check='construction-state', k=k), what))
+    return bad
 
 
 def session_privacy(ctx):
@@ -1121,6 +1185,8 @@ def run(ctx):
     for case, what in session_privacy(ctx):
         ctx.violation(case, what)
     for case, what in bucket_claim(ctx):
+        ctx.violation(case, what)
+    for case, what in construction_state(ctx):
         ctx.violation(case, what)
     ctx.assumptions = ['one source line of the anchored methods is the unit of interleaving',
                        'a transition observed between two yield points may bundle up to %d model steps of the '
